@@ -65,7 +65,7 @@ def run(ctx):
     ctx.proof("C29")
 
     # ---------------- generate the template groups of this run
-    n_groups = ctx.size(24, 200)
+    n_groups = ctx.size(110, 700)
     groups = []
     for gi in range(n_groups):
         templates = dict(FC.AUX)
@@ -102,11 +102,71 @@ def run(ctx):
     # ---------------- O
     sys_switch = sys.getswitchinterval()
     try:
+        refs = {}
         for gi, (templates, names, tg_data) in enumerate(groups):
             for mode in MODES:
-                oracle_group(ctx, jinja2, templates, names, tg_data, mode, gi)
+                refs[(gi, mode)] = oracle_group(ctx, jinja2, templates, names, tg_data, mode, gi)
+        fresh_process_refs(ctx, groups, refs)
+        # the isolated renders again, on fresh environments, after everything else ran in this process and in the
+        # opposite order: state that leaks between environments (module-level / class-level) shows up here
+        for gi in reversed(range(len(groups))):
+            templates, names, tg_data = groups[gi]
+            for mode in MODES:
+                for n in reversed(names):
+                    data, eg, tg = inputs_for(tg_data)
+                    out = render(make_env(jinja2, mode, templates, eg), n, data, tg)
+                    ctx.case(key=(templates[n], mode, "late") if out.startswith("ok:") and len(out) > 3 else None)
+                    if out != refs[(gi, mode)][n]:
+                        ctx.reject({"templates": templates, "template": n, "mode": mode, "phase": "late isolated render",
+                                    "tgen_data": repr(tg_data) if tg_data and n.startswith("g_") else None,
+                                    "first": refs[(gi, mode)][n][:300], "late": out[:300]},
+                                   "an isolated render on a fresh environment differs between the start and the end of the run "
+                                   "(state leaks between environments)", f"late isolated render differs: {mode}")
+                    else:
+                        ctx.validated()
     finally:
         sys.setswitchinterval(sys_switch)
+
+
+FRESH_CODE = r"""
+import json, sys
+sys.path.insert(1, %r)
+from harness import c29, frames_common as FC
+import jinja2
+job = json.loads(sys.stdin.read())
+tg_data = eval(job["tg_data"]) if job["tg_data"] else None
+data, eg, tg = c29.inputs_for(tg_data)
+print(json.dumps(c29.render(c29.make_env(jinja2, job["mode"], job["templates"], eg), job["name"], data, tg)))
+"""
+
+
+def fresh_process_refs(ctx, groups, refs):
+    """a sample of the isolated renders repeated in a brand-new interpreter (one process per render): the only place
+    where state shared by all environments of a process (module / class level) cannot hide"""
+    import json
+    jobs = []
+    for gi, (templates, names, tg_data) in enumerate(groups):
+        for n in names:
+            if "import" in templates[n] or "include" in templates[n] or n.startswith("g_"):
+                jobs.append((gi, MODES[(gi + len(jobs)) % 3], n))
+    ctx.rng.shuffle(jobs)
+    for gi, mode, n in jobs[: ctx.size(14, 80)]:
+        templates, names, tg_data = groups[gi]
+        job = {"templates": templates, "mode": mode, "name": n, "tg_data": repr(tg_data) if tg_data else None}
+        rc, out, err = lib.impl_python(FRESH_CODE % lib.ROOT, inp=json.dumps(job), timeout=60)
+        ctx.case(key=(templates[n], mode, "fresh-process"))
+        try:
+            got = json.loads(out)
+        except Exception:  # noqa
+            got = "harness-error:" + err[-200:]
+        if got != refs[(gi, mode)][n]:
+            ctx.reject({"templates": templates, "template": n, "mode": mode, "phase": "fresh process",
+                        "tgen_data": repr(tg_data) if tg_data and n.startswith("g_") else None,
+                        "in_process": refs[(gi, mode)][n][:300], "fresh_process": got[:300]},
+                       "the isolated render in this process differs from the same render in a brand-new interpreter "
+                       "(state leaks between renders at module / class level)", f"fresh-process render differs: {mode}")
+        else:
+            ctx.validated()
 
 
 def krt_new_context(ctx, jinja2):
@@ -230,6 +290,7 @@ def oracle_group(ctx, jinja2, templates, names, tg_data, mode, gi):
                 else:
                     ctx.validated()
         check_inputs({"templates": templates, "template": ",".join(sorted(set(plan))), "mode": mode}, "threads")
+    return ref
 
 
 def replay(ctx, data):
@@ -244,6 +305,21 @@ def replay(ctx, data):
         return
     templates, mode = case["templates"], case["mode"]
     names = case["template"].split(",")
+    if case.get("phase") == "fresh process":
+        import json
+        tg_data0 = eval(case["tgen_data"]) if case.get("tgen_data") else None  # noqa
+        for other in sorted(templates):          # the history that may have left state behind in this process
+            if other.startswith("t") or other == "g_main.html":
+                d9, eg9, tg9 = inputs_for(tg_data0)
+                render(make_env(jinja2, mode, templates, eg9), other, d9, tg9)
+        d0, eg, tg = inputs_for(tg_data0)
+        here = render(make_env(jinja2, mode, templates, eg), names[0], d0, tg)
+        job = {"templates": templates, "mode": mode, "name": names[0], "tg_data": case.get("tgen_data")}
+        rc, out, err = lib.impl_python(FRESH_CODE % lib.ROOT, inp=json.dumps(job), timeout=60)
+        print("this process :", here[:200], "\nfresh process:", out.strip()[:200], "\nrecorded in-process result:", case.get("in_process"))
+        if json.loads(out) != here:
+            ctx.reject(case, "render after other renders in this process differs from the same render in a brand-new interpreter")
+        return
     tg_data = eval(case["tgen_data"]) if case.get("tgen_data") else None  # noqa: data written by this harness
     for n in names:
         d0, eg, tg = inputs_for(tg_data)
